@@ -90,7 +90,9 @@ func verifRequest(method, path string, hdr http.Header, xmlBody interface{}, xml
 			b = []byte("<marshal-error")
 		}
 		if verifBogusExpand {
-			b = verifExpandStartAttr.ReplaceAll(b, []byte(`start="bogus"`))
+			// (compiled here, natively only: package-level initialisers are
+			// executed on every symbolic path)
+			b = regexp.MustCompile(`start="[^"]*"`).ReplaceAll(b, []byte(`start="bogus"`))
 		}
 		r.Body = ioutil.NopCloser(bytes.NewReader(b))
 	}
@@ -156,7 +158,6 @@ func symCalendarData() (*internal.Prop, bool) {
 }
 
 var verifBogusExpand bool
-var verifExpandStartAttr = regexp.MustCompile(`start="[^"]*"`)
 
 // symReportBody: a REPORT body of bounded shape including the mutually
 // exclusive combinations; returns the struct and whether it is malformed.
@@ -256,7 +257,12 @@ func VerifH_C13_Handler() {
 			vrt.Assume(method != m)
 		}
 	}
-	path := verifLevelPaths[vrt.Choose("level", len(verifLevelPaths))]
+	level := vrt.Choose("level", len(verifLevelPaths))
+	if method == "REPORT" {
+		// the REPORT body interpretations do not depend on the level: two levels only
+		vrt.Assume(level == 3 || level == 4)
+	}
+	path := verifLevelPaths[level]
 	hdr := http.Header{}
 	malformed := false
 	rawBody := ""
@@ -277,9 +283,18 @@ func VerifH_C13_Handler() {
 			xmlBroken = true
 			malformed = true
 		case 2:
-			hdr.Set("Content-Type", "application/xml; charset=utf-8")
+			switch vrt.Choose("propfind-content-type", 3) {
+			case 0:
+				hdr.Set("Content-Type", "application/xml; charset=utf-8")
+			case 1:
+				hdr.Set("Content-Type", "text/xml")
+			case 2:
+				// a media type parameter without a value: not a valid Content-Type
+				hdr.Set("Content-Type", "text/xml;charset")
+				malformed = true
+			}
 			pf := &internal.PropFind{}
-			switch vrt.Choose("propfind-form", 4) {
+			switch vrt.Choose("propfind-form", 6) {
 			case 0:
 				pf.AllProp = &struct{}{}
 			case 1:
@@ -288,6 +303,15 @@ func VerifH_C13_Handler() {
 				pf.Prop = &internal.Prop{Raw: []internal.RawXMLValue{*internal.NewRawXMLElement(internal.GetETagName, nil, nil)}}
 			case 3:
 				malformed = true // none of the three forms
+			case 4:
+				// propname, allprop and prop are mutually exclusive (RFC 4918 14.20)
+				pf.AllProp = &struct{}{}
+				pf.PropName = &struct{}{}
+				malformed = true
+			case 5:
+				pf.AllProp = &struct{}{}
+				pf.Prop = &internal.Prop{Raw: []internal.RawXMLValue{*internal.NewRawXMLElement(internal.GetETagName, nil, nil)}}
+				malformed = true
 			}
 			xmlBody = pf
 		case 3:
@@ -297,16 +321,22 @@ func VerifH_C13_Handler() {
 			malformed = true
 		}
 	case "REPORT":
-		switch vrt.Choose("report-ct", 3) {
+		switch vrt.Choose("report-ct", 4) {
 		case 0:
 			hdr.Set("Content-Type", "text/xml")
 		case 1:
 			hdr.Set("Content-Type", "application/xml")
+		case 3:
+			hdr.Set("Content-Type", "application/xml; charset")
+			malformed = true
 		case 2:
 			hdr.Set("Content-Type", "text/calendar")
 			malformed = true
 		}
-		if vrt.Choose("report-broken", 2) == 1 {
+		if hdr.Get("Content-Type") != "text/xml" {
+			// the other announcements carry one plain well-formed query
+			xmlBody = &reportReq{Query: &calendarQuery{AllProp: &struct{}{}, Filter: filter{CompFilter: compFilter{Name: "VCALENDAR"}}}}
+		} else if vrt.Choose("report-broken", 2) == 1 {
 			xmlBroken = true
 			malformed = true
 		} else {
@@ -434,4 +464,22 @@ func verifValidCalendar() *ical.Calendar {
 	ev.Props[ical.PropDateTimeStart] = []ical.Prop{{Name: ical.PropDateTimeStart, Params: ical.Params{}, Value: "20200101T000000Z"}}
 	cal.Children = append(cal.Children, ev)
 	return cal
+}
+
+// VerifH_C13_Enumerations: the decoder of the negate-condition attribute
+// accepts exactly yes and no, for opaque texts of any length and for every
+// three-byte string; whatever it refuses makes the XML decoder fail, which
+// DecodeXMLRequest answers 400.
+func VerifH_C13_Enumerations() {
+	text := vrt.Str("negate-condition")
+	if vrt.Choose("negate-condition-form", 2) == 1 {
+		text = vrt.StrNIn("negate-condition-bytes", 2+vrt.Choose("negate-condition-len", 2), 0, 0x7f)
+	}
+	var nc negateCondition
+	err := nc.UnmarshalText([]byte(text))
+	vrt.Assert((err == nil) == (text == "yes" || text == "no"), "negate-condition attribute: exactly yes and no are accepted")
+	if err == nil {
+		vrt.Assert(bool(nc) == (text == "yes"), "negate-condition attribute: decoded value")
+	}
+	vrt.Reach("enumerations")
 }
